@@ -134,7 +134,9 @@ def ev_aca3d(case, viol, seed):
         X = tensor.asarray(X)
         n += 1
         if X.shape != A.shape or nrm(X - A) > 1e-9 * nA:
-            viol.append(('aca_3d-not-exact fam=aca3d lr=%s' % lr, {'case': case, 'err': nrm(X - A) if X.shape == A.shape else None}))
+            # inputs the spec proves to be in generic position keep a signature of their own
+            viol.append(('aca_3d-not-exact fam=aca3d lr=%s%s' % (lr, ' generic=True' if case['generic'] else ''),
+                         {'case': case, 'err': nrm(X - A) if X.shape == A.shape else None}))
     return n
 
 
